@@ -47,6 +47,8 @@ def step (line : String) : String :=
   | id :: _cls :: "sendu" :: args => s!"{id} {evalSend args}"
   | id :: _cls :: "slsendu" :: args => s!"{id} {evalSlSend args}"
   | id :: _cls :: "hsu" :: args => s!"{id} {evalHs args}"
+  | id :: _cls :: "sendb" :: args => s!"{id} {evalSendB args}"
+  | id :: _cls :: "slsendb" :: args => s!"{id} {evalSlSendB args}"
   | id :: _cls :: "sendseq" :: args => s!"{id} {evalSendSeq args}"
   | id :: _cls :: "sendm" :: args => s!"{id} {evalSendM args}"
   | id :: _cls :: "slsend" :: args => s!"{id} {evalSlSend args}"
